@@ -2,7 +2,8 @@ import Oracle.Lib
 import Refinery.Model.EventTime
 /-
 Oracle for event-time handling (C22).
-ops:  epoch <path> <digits>          obs: <sec> <nsec>      (path = hdr | json)
+ops:  epoch <path> <digits>          obs: <sec> <nsec>      (path = hdr | json | jsoni; jsoni = JSON batch whose times are read after another
+                                      request of the same shape has been decoded, as Router.batch reads them lazily)
       rfc <path> <sec> <nsec> <str>  obs: <sec> <nsec>      (str = RFC 3339 rendering of that instant)
       raw <path> <str>               obs: anything          (out-of-scope strings: model unspecified)
       mp <hex>                       obs: <sec> <nsec> | error    (msgpack batch event, `time` = these bytes)
